@@ -29,12 +29,16 @@ def ref_elf(n):
         for i in range(n):
             ch = RndChooser(9000 + i)
             m = c01.build_model(ch, 'quick')
-            if m.get('invalid_links') or len(m['sections']) < 2:
+            if m.get('invalid_links') or len(m['sections']) < 2 or m.get('shstrndx') is None:
                 continue
+            # readelf indexes the header tables as arrays of the standard structures (it only warns about a larger
+            # e_shentsize/e_phentsize), so it cannot referee oversized entries
+            m['shentsize_extra'] = 0
+            m['phentsize_extra'] = 0
             data, R = W.build(m)
             p = os.path.join(tmp, 'f%d' % i)
             open(p, 'wb').write(data)
-            out = subprocess.run([READELF, '-hSlW', p], capture_output=True, text=True).stdout
+            out = subprocess.run([READELF, '-hSlW', p], capture_output=True, encoding='utf-8', errors='replace').stdout
             tot += 1
             def field(label):
                 mo = re.search(r'%s:\s+(.*)' % re.escape(label), out)
@@ -95,7 +99,7 @@ def ref_inseg(n):
             data, R = W.build({'cls': cls, 'le': le, 'e_type': 3, 'e_machine': 62, 'sections': secs, 'segments': segs, 'shstrndx': len(secs) - 1, 'tail': 0x3000})
             p = os.path.join(tmp, 'g%d' % i)
             open(p, 'wb').write(data)
-            out = subprocess.run([READELF, '-lW', p], capture_output=True, text=True).stdout
+            out = subprocess.run([READELF, '-lW', p], capture_output=True, encoding='utf-8', errors='replace').stdout
             mo = re.search(r'Section to Segment mapping:\n\s+Segment Sections\.\.\.\n(.*)', out, flags=re.S)
             if not mo:
                 continue
@@ -143,7 +147,7 @@ def ref_dwarf(n):
             data, _ = W.build({'cls': 64, 'le': True, 'e_type': 1, 'e_machine': 62, 'sections': secs, 'shstrndx': len(secs) - 1})
             p = os.path.join(tmp, 'd%d.o' % i)
             open(p, 'wb').write(data)
-            out = subprocess.run([dd, '--debug-info', p], capture_output=True, text=True).stdout
+            out = subprocess.run([dd, '--debug-info', p], capture_output=True, encoding='utf-8', errors='replace').stdout
             tot += 1
             offs = set(int(x, 16) for x in re.findall(r'^0x([0-9a-f]{8}):\s+(?:DW_TAG|NULL)', out, flags=re.M))
             want = set()
